@@ -156,6 +156,10 @@ def propagate(cx, N, L, Nt, Nref, kind, cplxH=False):
             for _ in range(Nref):
                 ref = taylor(gen, ref, dt / Nref, L)
         cx.prove_eq("taylor[%d]" % i, pr.data[i], ref)
+    if Nref > 1:
+        # the same refined call again on the same propagator gives the same states
+        pr2 = prop.propagate(rhoi, method=METHOD[L], Nref=Nref)
+        cx.prove_eq("refined_call_repeated", pr2.data, pr.data, tol=1e-9)
     if kind == "none":
         E0 = numpy.trace(numpy.dot(H, rho0))
         for i in range(1, Nt):
